@@ -29,6 +29,11 @@ func main() {
 		if err != nil {
 			panic(err)
 		}
+		for k, fi := range w.Funcs {
+			if fi.Contract != nil && fi.Contract.Trusted {
+				fmt.Printf("trusted %s %s\n", shortName(k), funcPin(w, fi))
+			}
+		}
 		for _, e := range loadOrdindTable() {
 			if e.Rule == "argued" {
 				for k, fi := range w.Funcs {
